@@ -137,7 +137,7 @@ pub fn run(p: &Params) -> Report {
             continue;
         }
         let mut w = World::random(case_seed);
-        w.profile = Profile { normal: 10, newcustom: 6, faucet: 6, swap: 24, deposit: 26, withdraw: 20, stake: 1, doscmint: 1, hostile: 5, odd_spelling_permille: 60, wrong_kind_permille: 40, dependent_permille: 300, max_batch: 8, big_values_permille: 100, degenerate_permille: 60, fast_mint_permille: 0, crowd_permille: 0 };
+        w.profile = Profile { normal: 10, newcustom: 6, faucet: 6, swap: 24, deposit: 26, withdraw: 20, stake: 1, doscmint: 1, hostile: 5, odd_spelling_permille: 60, wrong_kind_permille: 40, dependent_permille: 300, max_batch: 8, big_values_permille: 100, degenerate_permille: 60, fast_mint_permille: 0, crowd_permille: 0, big_block_permille: 0 };
         w.twin_deposits = case % 2 == 0;
         if case % 6 == 3 {
             // whales: amounts near their caps or log-uniform up to 2^120 against small or lopsided reserves
